@@ -62,7 +62,8 @@ structure P2PPlan where
   newsub : Bool
   user1only : Bool
 
-def p2pPlan (a : Actor) (peer : Uid) (u1 u2 : User) (subs : List SubRow) (mode : String) (priv : PrivArg) (userArg : Uid) : P2PPlan :=
+def p2pPlan (a : Actor) (peer : Uid) (u1 u2 : User) (subs : List SubRow) (mode : String) (priv : PrivArg) (userArg : Uid)
+    (prevGiven : Option Mode := none) : P2PPlan :=
   let sub1? : Option SubRow := if subs.length = 1 then subs.find? (·.user = a.uid) else none
   let sub2? : Option SubRow := if subs.length = 1 then subs.find? (·.user ≠ a.uid) else none
   let user1only := sub2?.isSome
@@ -76,7 +77,7 @@ def p2pPlan (a : Actor) (peer : Uid) (u1 u2 : User) (subs : List SubRow) (mode :
     | some s => (s, false)
     | none =>
       let privTok : Tok := match priv with | .val s => some s | _ => none
-      ({ user := a.uid, want := p2pInitWant sub2.given hasSetSub userArg a.uid mode, given := p2pSan (p2pDefault a.lvl u2), priv := privTok }, true)
+      ({ user := a.uid, want := p2pInitWant sub2.given hasSetSub userArg a.uid mode, given := p2pSan (match prevGiven with | some g => g | none => p2pDefault a.lvl u2), priv := privTok }, true)
   let sub2 := if !user1only then { sub2 with want := p2pSan (p2pDefault a.lvl u2) } else sub2
   { sub1 := sub1, sub2 := sub2, created := created, newsub := newsub, user1only := user1only }
 
@@ -88,7 +89,13 @@ def Ctx.p2pMake (c : Ctx) (a : Actor) (peer : Uid) (mode : String) (priv : PrivA
   if !ok then (c.emit a.sid (ctrl 500 key), none) else
   match c.w.user? a.uid, c.w.user? peer with
   | some u1, some u2 =>
-    let p := p2pPlan a peer u1 u2 subs mode priv userArg
+    -- the requester's subscription is missing from an existing topic: the grant it had before it was deleted is restored
+    let needPrev := rowExists && (if subs.length = 1 then (subs.find? (·.user = a.uid)).isNone else true)
+    let (c, prev) : Ctx × Option (Option SubRow) := if needPrev then c.subsGet key a.uid true else (c, some none)
+    match prev with
+    | none => (c.emit a.sid (ctrl 500 key), none)
+    | some prevRow =>
+    let p := p2pPlan a peer u1 u2 subs mode priv userArg (prevRow.map (·.given))
     let (c, ok) := if rowExists then c.subsCreate key (if p.user1only then p.sub1 else p.sub2)
                    else c.call "TopicCreateP2P" (effCreateP2P key p.sub1 p.sub2)
     if !ok then (c.emit a.sid (ctrl 500 key), none) else
